@@ -204,3 +204,53 @@ func (P *Program) ForbidsObligations(hasTag func(string) bool) []*Obligation {
 	}
 	return out
 }
+
+// TheoremObligations: each `theorem name` is proved on its own, without any program context: the ghost macro applied
+// to fresh constants of its parameter types must be valid.
+func (P *Program) TheoremObligations(hasTag func(string) bool) *FuncResult {
+	var names []string
+	for n, th := range P.theorems {
+		if hasTag(th.Tag) {
+			names = append(names, n)
+		}
+	}
+	if len(names) == 0 {
+		return nil
+	}
+	sort.Strings(names)
+	vc := NewVC(P.reg)
+	fr := &FuncResult{VC: vc}
+	for _, n := range names {
+		th := P.theorems[n]
+		g := P.ghosts[n]
+		ob := &Obligation{Name: fmt.Sprintf("%s/%s.%s/theorem", th.Tag, shortPkg(th.Pkg), n), Tag: th.Tag, Kind: "theorem", Func: n, Desc: "theorem (valid for all arguments, proved without program context): " + n}
+		if g == nil || g.Body == nil {
+			ob.Result = &SolveResult{Status: "unknown", Backend: "engine", Output: "theorem " + n + " needs a ghost func with a body of that name"}
+			vc.AddObligation(ob)
+			fr.Obls = append(fr.Obls, ob)
+			continue
+		}
+		func() {
+			defer func() {
+				if r := recover(); r != nil {
+					ob.Result = &SolveResult{Status: "unknown", Backend: "engine", Output: fmt.Sprint(r)}
+				}
+			}()
+			ex := &Exec{P: P, vc: vc, reg: P.reg, hsorts: heapSorts{}, expands: map[string]bool{}, reprCache: map[string]string{}}
+			st := &PState{reach: "true", heap: map[string]string{}, epoch: 0, brk: vc.Declare("brk0", SInt)}
+			ex.entry = st
+			env := &SpecEnv{ex: ex, vars: map[string]Val{}, stypes: map[string]*SType{}, cur: st, old: st, pkg: P.typesPkg(th.Pkg), what: "theorem " + n}
+			call := &SExpr{Op: "call", Name: n}
+			for _, b := range g.Params {
+				t := env.resolveTypeIn(b.Type, g.Pkg)
+				c := vc.Fresh("thm_"+b.Name, t.S)
+				env.vars["$thm_"+b.Name] = Val{T: c, S: t.S, GT: t.GT}
+				call.Args = append(call.Args, &SExpr{Op: "var", Name: "$thm_" + b.Name})
+			}
+			ob.Goal = env.boolE(call)
+		}()
+		vc.AddObligation(ob)
+		fr.Obls = append(fr.Obls, ob)
+	}
+	return fr
+}
